@@ -569,6 +569,73 @@ fn make_snaps(tier: Tier) -> Vec<Snap> {
     out
 }
 
+/// Large-import rollback: a failed import that had already created more than 1 024 nodes carrying
+/// one property (enough to turn that property's column dense) into a store whose first ids are
+/// taken by nodes WITHOUT the property (so the dense band does not start at row 0). After the
+/// refusal the store must be as before -- including what is left under the ids the rollback freed:
+/// fresh nodes that reuse those ids must not inherit anything (seeded change C13b: the column
+/// store's dense `remove` is a no-op for the top rows of a band that starts above row 0).
+fn large_rollback_phase(ctx: &Ctx) -> J {
+    const N: usize = 1100;
+    const PRE: usize = 40;
+    let mut src = GraphStore::new();
+    for i in 0..N {
+        let id = src.create_node("Big");
+        src.set_node_property("default", id, "name", PropertyValue::String(format!("n{i}"))).expect("set");
+    }
+    let bytes = export_bytes(&src, None).expect("export");
+    let cuts: Vec<usize> = vec![bytes.len() * 96 / 100, bytes.len() * 98 / 100, bytes.len() * 99 / 100, bytes.len() - 9, bytes.len() - 1];
+    let mut out = vec![];
+    for cut in cuts {
+        let mut store = GraphStore::new();
+        for _ in 0..PRE {
+            store.create_node("Plain");
+        }
+        let faulty = &bytes[..cut];
+        let decodable = decodable_node_records(&inflate::gunzip_prefix(faulty).out).len();
+        let res = guarded(|| samyama::snapshot::import_tenant_with_dedup(&mut store, std::io::Cursor::new(faulty), &[]).map(|s| s.node_count).map_err(|e| e.to_string()));
+        let outcome = match &res {
+            Ok(Ok(n)) => format!("ok:{n}"),
+            Ok(Err(_)) => "err".to_string(),
+            Err(p) => format!("panic:{p}"),
+        };
+        let w = json!({"kind": "large_rollback", "nodes_in_snapshot": N, "pre_existing_nodes_without_the_property": PRE, "cut_at_byte": cut, "of": bytes.len(), "decodable_node_records": decodable, "import_result": outcome});
+        if let Ok(Err(e)) = &res {
+            // (1) nothing of the snapshot is visible
+            let big = cy_count(&store, "MATCH (n:Big) RETURN count(n) AS c");
+            let all = cy_count(&store, "MATCH (n) RETURN count(n) AS c");
+            if big != Some(0) || all != Some(PRE as i64) {
+                ctx.violation("large_rollback:store_changed", format!("import of {decodable} decodable node records failed ({e}) but the store holds {all:?} nodes, {big:?} of them :Big (before: {PRE}, 0)"), w.clone());
+            }
+            // (2) nothing is left under the freed ids: fresh nodes reuse them
+            for _ in 0..N {
+                store.create_node("Fresh");
+            }
+            let named = cy_count(&store, "MATCH (n:Fresh) WHERE n.name IS NOT NULL RETURN count(n) AS c");
+            let mut api_named = 0;
+            for n in store.all_nodes() {
+                if n.labels.iter().any(|l| l.as_str() == "Fresh") && store.node_properties_full(n.id).contains_key("name") {
+                    api_named += 1;
+                }
+            }
+            if named != Some(0) || api_named != 0 {
+                ctx.violation("large_rollback:freed_ids_keep_property_values", format!("after a failed import of {decodable} decodable node records, {named:?} (Cypher) / {api_named} (API) of {N} freshly created nodes already have a `name`: the rollback left the failed import's values under the ids it freed"), w.clone());
+            }
+        }
+        out.push(w);
+    }
+    json!(out)
+}
+fn cy_count(store: &GraphStore, q: &str) -> Option<i64> {
+    let eng = samyama::query::QueryEngine::new();
+    let b = eng.execute(q, store).ok()?;
+    let rec = b.records.first()?;
+    match rec.get("c") {
+        Some(samyama::query::Value::Property(PropertyValue::Integer(i))) => Some(*i),
+        _ => None,
+    }
+}
+
 fn main() {
     run_check("C13", Level::FaultEnumeration, |ctx| {
         silence_stderr();
@@ -660,6 +727,8 @@ fn main() {
         if intact_bad > 0 {
             ctx.violation("unclassified:intact_snapshot_refused", format!("{intact_bad} intact imports did not succeed"), json!(null));
         }
+        let large = large_rollback_phase(ctx);
+        ctx.cov("large_import_rollback", large);
         let evaluations = cases.len() as u64;
         ctx.cov("evaluations", evaluations);
         ctx.cov("generator_cardinality", json!({"groups (snapshot x level x target x dedup)": groups.len(), "intact": groups.len(), "truncations (every length 0..len-1)": card_trunc, "corruptions (every offset x masks)": card_flip, "masks": masks, "total": groups.len() as u64 + card_trunc + card_flip}));
@@ -686,6 +755,11 @@ fn main() {
 
 fn replay(ctx: &Ctx, p: &std::path::Path) {
     let doc: J = serde_json::from_str(&std::fs::read_to_string(p).expect("read replay")).expect("json");
+    if doc["witness"]["kind"] == "large_rollback" {
+        let r = large_rollback_phase(ctx);
+        println!("{}", serde_json::to_string_pretty(&r).unwrap_or_default());
+        return;
+    }
     let w = &doc["witness"];
     let tier = Tier::Thorough;
     let bytes = unhex(w["bytes_hex"].as_str().unwrap_or_else(|| ctx.machinery("replay: no bytes_hex")));
